@@ -43,6 +43,11 @@ import (
 //	K="rmall"                   : TabList.RemoveAll()
 //	K="bup"   V=join|add|lat|gm|list|unlist|dn|dnnil|order|gm+lat|join2 : backend player-info update
 //	K="brm"                     : backend player-info remove
+//	K="add2"  V=AB|BA           : TabList.Add(e0, e1) — two ids in ONE call
+//	K="adddup"                  : TabList.Add(variant A of id, variant B of id) — the same id twice in one call
+//	K="rm2"                     : TabList.RemoveAll(id0, id1) — two ids in one call
+//	K="sset"  V=lat|dn          : setter on a STALE handle: an Entry obtained from Entries() earlier that has since
+//	                              been removed from the list or replaced by another Entry object of the same id
 type Op struct {
 	K string `json:"k"`
 	I int    `json:"i,omitempty"`
@@ -54,7 +59,7 @@ func (o Op) String() string {
 	if o.V != "" {
 		s += ":" + o.V
 	}
-	if o.K != "rmall" {
+	if o.K != "rmall" && o.K != "add2" && o.K != "rm2" {
 		s += fmt.Sprintf("(%d)", o.I)
 	}
 	return s
@@ -272,6 +277,10 @@ func (sc scenario) ops() []Op {
 		ops = append(ops, Op{K: "brm", I: i})
 	}
 	ops = append(ops, Op{K: "rmall"}, Op{K: "bup", V: "join2"})
+	ops = append(ops, Op{K: "add2", V: "AB"}, Op{K: "add2", V: "BA"}, Op{K: "rm2"})
+	for i := 0; i < 2; i++ {
+		ops = append(ops, Op{K: "adddup", I: i}, Op{K: "sset", I: i, V: "lat"}, Op{K: "sset", I: i, V: "dn"})
+	}
 	return ops
 }
 
@@ -333,10 +342,33 @@ func runHistory(sc scenario, h []Op) bfs.Outcome {
 		return bfs.Outcome{FailKey: key, FailDesc: fmt.Sprintf("op %d %s: %s\nhistory so far: %s", i, op, desc, strings.Join(trace, " ; "))}
 	}
 	lastUnflushed := false
+	var stale [2]apitab.Entry // see Op "sset"
 	for i, op := range h {
 		trace = append(trace, op.String())
+		before := tl.Entries()
+		var dupFirst apitab.Entry
 		var call func() error
 		switch op.K {
+		case "add2":
+			e0, e1 := variant(op.V[:1], 0, tl), variant(op.V[1:], 1, tl)
+			call = func() error { return tl.Add(e0, e1) }
+		case "adddup":
+			e0, e1 := variant("A", op.I, tl), variant("B", op.I, tl)
+			dupFirst = e0 // listed by the first half of the call, replaced by the second
+			call = func() error { return tl.Add(e0, e1) }
+		case "rm2":
+			call = func() error { return tl.RemoveAll(ids[0], ids[1]) }
+		case "sset":
+			e := stale[op.I]
+			if e == nil {
+				return bfs.Outcome{FailKey: "harness/sset-without-stale-handle", FailDesc: fmt.Sprintf("op %d %s enabled without a stale handle; history %v", i, op, h)}
+			}
+			switch op.V {
+			case "lat":
+				call = func() error { return e.SetLatency(110 * time.Millisecond) }
+			case "dn":
+				call = func() error { return e.SetDisplayName(text("stale")) }
+			}
 		case "add":
 			e := variant(op.V, op.I, tl)
 			call = func() error { return tl.Add(e) }
@@ -408,9 +440,23 @@ func runHistory(sc scenario, h []Op) bfs.Outcome {
 			return failAt(i, op, op.K+"/client-decode", strings.Join(v.errs, "; "))
 		}
 		if kind, desc := compare(tl, cl, withOrder); kind != "" {
-			return failAt(i, op, op.K+"/"+kind, desc)
+			keyOp := op.K
+			if kind == "profile-mismatch" && (op.K == "add2" || op.K == "adddup") {
+				// Add over an existing id with another profile: the same (listed) finding as through a single-entry Add
+				keyOp = "add"
+			}
+			return failAt(i, op, keyOp+"/"+kind, desc)
 		}
 		lastUnflushed = v.buffered > 0
+		after := tl.Entries()
+		for k, id := range ids {
+			if b := before[id]; b != nil && after[id] != b {
+				stale[k] = b
+			}
+		}
+		if dupFirst != nil {
+			stale[op.I] = dupFirst
+		}
 	}
 	obs := "flushed"
 	if lastUnflushed {
@@ -419,24 +465,41 @@ func runHistory(sc scenario, h []Op) bfs.Outcome {
 	// The proxy-side state is fully observable through Entries() (attributes of every entry) and
 	// equals the client model whenever no violation was reported; entry objects of equal
 	// attributes behave equally, so equal keys have equal futures.
-	return bfs.Outcome{Key: stateKey(tl), Obs: obs}
+	// a stale handle keeps the attributes it had, but its setters only use the profile id and the new value:
+	// whether one exists is all that matters for the future
+	return bfs.Outcome{Key: stateKey(tl) + fmt.Sprintf("|stale:%v,%v", stale[0] != nil, stale[1] != nil), Obs: obs}
 }
 
 func enabled(h []Op, op Op) bool {
-	if op.K != "readd" && op.K != "set" {
+	if op.K != "readd" && op.K != "set" && op.K != "sset" {
 		return true
 	}
-	// needs an entry for that id: decided on the op history alone (cheap over-approximation is
-	// not allowed — replay the presence exactly)
-	present := [2]bool{}
+	// needs an entry for that id / a stale handle for that id: decided on the op history alone (cheap
+	// over-approximation is not allowed — replay the presence exactly)
+	present, stale := [2]bool{}, [2]bool{}
+	gone := func(i int) { // the listed Entry object of id i leaves the list
+		if present[i] {
+			stale[i] = true
+		}
+		present[i] = false
+	}
 	for _, o := range h {
 		switch o.K {
-		case "add":
+		case "add": // a NEW object: an existing one is replaced
+			gone(o.I)
 			present[o.I] = true
+		case "adddup":
+			gone(o.I)
+			present[o.I], stale[o.I] = true, true // the first of the two objects is replaced by the second
+		case "add2":
+			gone(0)
+			gone(1)
+			present = [2]bool{true, true}
 		case "rm", "brm":
-			present[o.I] = false
-		case "rmall":
-			present = [2]bool{}
+			gone(o.I)
+		case "rmall", "rm2":
+			gone(0)
+			gone(1)
 		case "bup":
 			switch o.V {
 			case "join", "add":
@@ -445,6 +508,9 @@ func enabled(h []Op, op Op) bool {
 				present = [2]bool{true, true}
 			}
 		}
+	}
+	if op.K == "sset" {
+		return stale[op.I]
 	}
 	return present[op.I]
 }
